@@ -14,6 +14,14 @@ pub(crate) fn find_tld_or_enum_value_by_name(
     name: &String,
     tlds: &BTreeMap<String, ToplevelDefinition>,
 ) -> Option<ASN1Value> {
+    // X.680 19.10: in the value notation of a type, an identifier denotes one of the
+    // type's own named numbers, even if a value of the same name is defined somewhere
+    if let Some(value) = tlds
+        .get(type_name)
+        .and_then(|tld| tld.get_distinguished_or_enum_value(Some(type_name), name))
+    {
+        return Some(value);
+    }
     if let Some(ToplevelDefinition::Value(v)) = tlds.get(name) {
         return Some(v.value.clone());
     } else {
